@@ -336,12 +336,16 @@ def fieldLoop : Nat → Srv → Strm → Bool → Bool → Nat → Bytes → Srv
   | fuel + 1, s, st, blockStart, endHeaders, fp, b =>
     match Hpack.Dec.next s.dec blockStart fp b with
     | .needMore =>
-      if !endHeaders then (s, { st with prevHdr := b }, none)
-      else (s, st, some (.goAway Gen.c_CompressionError "compression"))
+      -- `ErrUnexpectedSize`: the size updates read on the way have been applied; what is carried over is
+      -- what `nextField` hands back, the unfinished representation without them
+      let sk := Hpack.Dec.skipUpdates s.dec blockStart fp b
+      if !endHeaders then ({ s with dec := sk.1 }, { st with prevHdr := sk.2 }, none)
+      else ({ s with dec := sk.1 }, st, some (.goAway Gen.c_CompressionError "compression"))
     | .err => (s, st, some (.goAway Gen.c_CompressionError "compression"))
-    | .ok dec fo rest =>
-      -- `fo = none`: only table size updates were left; the Go loop still treats `hf` (empty) as a field
-      let x := fieldStep s.cfg st (fo.getD ⟨[], [], false⟩)
+    -- only table size updates were left (`ErrUnexpectedSize` and no octets): no field, nothing carried over
+    | .ok dec none _ => ({ s with dec := dec }, st, none)
+    | .ok dec (some f) rest =>
+      let x := fieldStep s.cfg { st with fieldSeen := true } f
       match x.2 with
       | some e => ({ s with dec := dec }, x.1, some e)
       | none => fieldLoop fuel { s with dec := dec } x.1 blockStart endHeaders (fp + 1) rest
@@ -363,7 +367,9 @@ def handleHeaderFrame (s : Srv) (st : Strm) (fr : Frame) : Srv × Strm × Option
   if (match prio with | some (dep, _) => dep == st.id | none => false) then
     (s, st, some (.goAway Gen.c_ProtocolError "stream that depends on itself"))
   else
-    let blockStart := !isCont && st.prevHdr.isEmpty
+    -- a HEADERS frame opens a block; it is at its start until its first field has been decoded
+    let st := if isCont then st else { st with fieldSeen := false }
+    let blockStart := !st.fieldSeen
     let b := st.prevHdr ++ frag
     let st := { st with prevHdr := [] }
     fieldLoop (b.length + 1) s st blockStart eh 0 b
